@@ -4,6 +4,7 @@ import (
 	"fmt"
 	"net"
 	"os"
+	"os/exec"
 	"strings"
 	"sync"
 	"time"
@@ -273,6 +274,11 @@ func c18Launch(l *Lab, rep *Report, w *c18World, c c18Cfg) {
 		if err == nil {
 			// it accepted a connection: does it complete an exchange?
 			served := c18Serves(gw, c.TLS)
+			if out, e := exec.Command("ss", "-ltnpH", fmt.Sprintf("sport = :%d", gw.Port)).CombinedOutput(); e == nil {
+				detail["listeners_on_port"] = string(out)
+			}
+			detail["gateway_alive"] = gw.Alive()
+			detail["diag"] = gw.Diag
 			gw.Stop()
 			rep.Eval(key)
 			rep.Violate("C18/started-with-unsafe-config/"+strings.ReplaceAll(why[0], " ", "-"), fmt.Sprintf("configuration with %v (source %s) started serving (HTTP exchange completed: %v)", why, c.Source, served), detail)
@@ -309,13 +315,19 @@ func c18Launch(l *Lab, rep *Report, w *c18World, c c18Cfg) {
 }
 
 func c18Serves(g *GW, tls bool) bool {
-	hc, err := DialH(g.Addr, DialOpts{TLS: tls, Timeout: 3 * time.Second})
-	if err != nil {
-		return false
+	// generous: a configuration that does not serve never will, a loaded machine is just slow
+	for attempt := 0; attempt < 2; attempt++ {
+		hc, err := DialH(g.Addr, DialOpts{TLS: tls, Timeout: 20 * time.Second})
+		if err != nil {
+			continue
+		}
+		r, err := hc.Do("GET", "/metrics", Hdr{{"Connection", "close"}}, nil, 30*time.Second)
+		hc.Close()
+		if err == nil && r.Status == 200 {
+			return true
+		}
 	}
-	defer hc.Close()
-	r, err := hc.Do("GET", "/metrics", Hdr{{"Connection", "close"}}, nil, 5*time.Second)
-	return err == nil && r.Status == 200
+	return false
 }
 
 // ---------------------------------------------------------------------------
